@@ -25,7 +25,7 @@ func init() {
 		RequiredCounters: []string{"retained_results_rechecked", "nil_expected_and_observed", "roots_verified", "points_recovered"},
 		Assumptions:      []string{"math/big Jacobi/ModSqrt are the oracle; the decimal constant of the 2^32-th root of unity is checked to have order exactly 2^32"},
 		Plan: func(tier string) []Child {
-			return shardsVar(pick(tier, 8, 16), Child{Flavour: "plain", NCPU: 1})
+			return plus386(shardsVar(pick(tier, 8, 16), Child{Flavour: "plain", NCPU: 1}), 3)
 		},
 		Run: runC17,
 	})
